@@ -179,18 +179,18 @@ func (sp *SwitchPath) CalculateBlockSize() (int, error) {
 	}
 
 	// Build label simulation with encoded sizes.
-	var size uint8
+	var size int
 	// Size simulation contains both hop paths in the order they are added,
 	// but the zero label in the center overlaps!
-	sizeSim := make([]uint8, len(sp.Hops)*2-1)
+	sizeSim := make([]int, len(sp.Hops)*2-1)
 	for i := 0; i < len(sp.Hops); i++ {
-		sizeSim[i] = uint8(sp.Hops[i].ForwardLabel.EncodedSize())
-		sizeSim[len(sp.Hops)+i-1] = uint8(sp.Hops[i].ReturnLabel.EncodedSize())
+		sizeSim[i] = sp.Hops[i].ForwardLabel.EncodedSize()
+		sizeSim[len(sp.Hops)+i-1] = sp.Hops[i].ReturnLabel.EncodedSize()
 	}
 	// Now, simulate the label rotation and check every rotation for the required size.
 	// Labels are always one element shorter than the path.
 	for i := 0; i <= len(sp.Hops); i++ {
-		var caseSize uint8
+		var caseSize int
 		for j := i; j < i+len(sp.Hops)-1; j++ {
 			caseSize += sizeSim[j]
 		}
@@ -198,8 +198,12 @@ func (sp *SwitchPath) CalculateBlockSize() (int, error) {
 			size = caseSize
 		}
 	}
+	// The switch block length is transmitted as a single byte.
+	if size > 255 {
+		return 0, errors.New("switch path does not fit into a switch block")
+	}
 	// fmt.Println(sizeSim)
-	return int(size), nil
+	return size, nil
 
 	// Failed Alternative 1:
 	// Count encoded size of both all forward and return labels separately, use bigger of the two.
